@@ -96,6 +96,28 @@ def resolved_event(ev, ctx):
 
 
 HELPERS = {}
+_FILLER = object()
+_HUNG = object()
+
+
+class _Hung(Exception):
+    pass
+
+
+class _AfterFirst:
+    """Write-stream proxy: runs `hook()` right after the first successful send."""
+
+    def __init__(self, inner, hook):
+        self._inner, self._hook, self._first = inner, hook, True
+
+    async def send(self, item):
+        await self._inner.send(item)
+        if self._first:
+            self._first = False
+            self._hook()
+
+    def __getattr__(self, name):
+        return getattr(self._inner, name)
 
 
 def _helpers():
@@ -114,7 +136,12 @@ async def _one(case, token, obs):
     loop = __import__("asyncio").get_running_loop()
     t0 = loop.ticks
     in_send, in_recv = anyio.create_memory_object_stream(math.inf)
-    out_send, out_recv = anyio.create_memory_object_stream(math.inf)
+    # "writer": what the write stream does AFTER the first write: "open" takes everything;
+    # "blocked" = the peer stopped reading and the (one-slot) buffer is kept full; "closed" = the
+    # peer's end is closed right after the first write
+    wmode = case.get("writer", "open")
+    out_send, out_recv = anyio.create_memory_object_stream(1 if wmode == "blocked" else math.inf)
+    filler_send = out_send.clone()
     writes = []
     # a caller-supplied id is known up front; a falsy one ("" / 0) makes send_message generate
     # its own, so the id is then read from the request that is actually written
@@ -122,6 +149,8 @@ async def _one(case, token, obs):
     ctx = {"id": preset if preset else None, "tok": None}
 
     def drain():
+        if wmode == "blocked" and writes and not drain.final:
+            return  # the peer has stopped reading: taking an item would let a blocked write through
         while True:
             try:
                 m = out_recv.receive_nowait()
@@ -129,6 +158,8 @@ async def _one(case, token, obs):
                 break
             except Exception:
                 break
+            if m is _FILLER:
+                continue
             d = m.model_dump(exclude_none=True) if hasattr(m, "model_dump") else m
             writes.append(d)
             if isinstance(d, dict) and "id" in d and d.get("method") and d.get("method") != "notifications/cancelled":
@@ -137,6 +168,21 @@ async def _one(case, token, obs):
                 meta = (d.get("params") or {}).get("_meta") or {}
                 # the request's own progress token exists only when a callback was supplied
                 ctx["tok"] = meta.get("progressToken") if case.get("progress") else None
+        if wmode == "blocked" and writes and not drain.final:
+            try:
+                filler_send.send_nowait(_FILLER)  # keep the one slot occupied
+            except Exception:
+                pass
+
+    drain.final = False
+
+    def after_first_write():
+        drain()
+        if wmode == "closed":
+            out_recv.close()
+
+    if wmode != "open":
+        out_send = _AfterFirst(out_send, after_first_write)
 
     cbs = []
     raises = set(case.get("cbRaises") or [])
@@ -161,27 +207,36 @@ async def _one(case, token, obs):
 
     D_s = case["D"] * vloop.TICK
     helper = case.get("helper")
+    # harness guard: a call that is still running this long after its own deadline is cut off and
+    # reported as "hung" (an outcome of its own; the oracles decide what it means)
+    guard_s = D_s + 4 * P_TICKS_DEFAULT * vloop.TICK + 1.0
     try:
-        if helper:
-            fn, _kind = _helpers()[helper]
-            res = await fn(in_recv, out_send, D_s)
-        else:
-            kwargs = {}
-            if case.get("id") is not None:
-                kwargs["message_id"] = _idval(case["id"], {})
-            if token is not None:
-                kwargs["cancellation_token"] = token
-            if case.get("progress"):
-                kwargs["progress_callback"] = cb
-            params = case.get("params")
-            if params is not None:
-                import copy
-                params = copy.deepcopy(params)
-            res = await send_message(in_recv, out_send, case.get("method", "tools/list"), params, timeout=D_s, **kwargs)
+        res = _HUNG
+        with anyio.move_on_after(guard_s):
+            if helper:
+                fn, _kind = _helpers()[helper]
+                res = await fn(in_recv, out_send, D_s)
+            else:
+                kwargs = {}
+                if case.get("id") is not None:
+                    kwargs["message_id"] = _idval(case["id"], {})
+                if token is not None:
+                    kwargs["cancellation_token"] = token
+                if case.get("progress"):
+                    kwargs["progress_callback"] = cb
+                params = case.get("params")
+                if params is not None:
+                    import copy
+                    params = copy.deepcopy(params)
+                res = await send_message(in_recv, out_send, case.get("method", "tools/list"), params, timeout=D_s, **kwargs)
+        if res is _HUNG:
+            raise _Hung()
         obs["outcome"] = "returned"
         if hasattr(res, "model_dump"):
             res = {"__model__": type(res).__name__, "dump": res.model_dump(by_alias=True, exclude_none=True)}
         obs["p"] = res
+    except _Hung:
+        obs["outcome"] = "hung"
     except TimeoutError:
         obs["outcome"] = "timeout"
     except CancelledError:
@@ -197,6 +252,7 @@ async def _one(case, token, obs):
         obs["text"] = str(ex)[:200]
     obs["t"] = loop.ticks - t0
     obs["start"] = t0
+    drain.final = True
     drain()
     obs["writes"] = writes
     obs["cbs"] = cbs
@@ -285,6 +341,7 @@ def model_line(case, obs, poll_ticks=P_TICKS_DEFAULT):
         "cancelAt": case.get("cancelAt"),
         "token": ({"s": ctx["tok"]} if isinstance(ctx["tok"], str) else {"i": ctx["tok"]}) if ctx["tok"] is not None else None,
         "eventsFirst": case.get("tie", "events") in ("events", "io"),
+        "writer": case.get("writer", "open"),
         "ev": [[a, resolved_event(ev, ctx)] for a, ev in case["ev"]],
     }
 
